@@ -227,6 +227,9 @@ type worker struct {
 	distinct map[uint64]struct{}
 }
 
+// CaseSeed is the PRNG seed of case i of a stream: a function of (run seed, stream name, index) only.
+func CaseSeed(seed int64, stream string, i int64) int64 { return caseSeed(seed, stream, i) }
+
 func caseSeed(seed int64, stream string, i int64) int64 {
 	h := fnv.New64a()
 	var b [8]byte
@@ -542,4 +545,121 @@ func (m *M) SampleAny(stream string, v any) {
 		m.samples[stream] = append(m.samples[stream], map[string]any{"stream": stream, "case": v})
 	}
 	m.mu.Unlock()
+}
+
+// ---- support for crash-isolated child workers ----
+
+// Partial is what a child worker reports back to the parent.
+type Partial struct {
+	Counters map[string]int64      `json:"counters"`
+	Maxes    map[string]float64    `json:"maxes"`
+	Distinct []uint64              `json:"distinct"`
+	Samples  map[string][]any      `json:"samples"`
+	Viols    map[string]*Violation `json:"viols"`
+	Evals    int64                 `json:"evals"`
+	Broken   []string              `json:"broken"`
+}
+
+// StreamRange is Stream restricted to indices [lo,hi) run by ONE goroutine in
+// index order (children attribute allocations and crashes to single cases).
+// before is called with the index before each case starts (journal).
+func (m *M) StreamRange(name string, lo, hi int64, before func(i int64), f func(c *Case)) {
+	w := &worker{map[string]int64{}, map[string]float64{}, map[uint64]struct{}{}}
+	for i := lo; i < hi; i++ {
+		if before != nil {
+			before(i)
+		}
+		c := &Case{M: m, Stream: name, I: i, R: rand.New(rand.NewSource(caseSeed(m.Seed, name, i))), w: w}
+		m.runCase(c, f)
+	}
+	m.mu.Lock()
+	for k, v := range w.counters {
+		m.counters[k] += v
+	}
+	for k, v := range w.maxes {
+		if old, ok := m.maxes[k]; !ok || v > old {
+			m.maxes[k] = v
+		}
+	}
+	for k := range w.distinct {
+		m.distinct[k] = struct{}{}
+	}
+	m.evals += hi - lo
+	m.counters["cases."+name] += hi - lo
+	m.mu.Unlock()
+}
+
+// DumpPartial writes this monitor's observations to path (child side).
+func (m *M) DumpPartial(path string) error {
+	m.mu.Lock()
+	defer m.mu.Unlock()
+	p := Partial{Counters: m.counters, Maxes: m.maxes, Samples: m.samples, Viols: m.viols, Evals: m.evals, Broken: m.broken}
+	for k := range m.distinct {
+		p.Distinct = append(p.Distinct, k)
+	}
+	b, err := json.Marshal(p)
+	if err != nil {
+		return err
+	}
+	return os.WriteFile(path, b, 0o644)
+}
+
+// MergePartial folds a child's observations into the parent.
+func (m *M) MergePartial(path string) error {
+	b, err := os.ReadFile(path)
+	if err != nil {
+		return err
+	}
+	var p Partial
+	if err := json.Unmarshal(b, &p); err != nil {
+		return err
+	}
+	m.mu.Lock()
+	defer m.mu.Unlock()
+	for k, v := range p.Counters {
+		m.counters[k] += v
+	}
+	for k, v := range p.Maxes {
+		if old, ok := m.maxes[k]; !ok || v > old {
+			m.maxes[k] = v
+		}
+	}
+	for _, k := range p.Distinct {
+		if len(m.distinct) < maxDistinct {
+			m.distinct[k] = struct{}{}
+		}
+	}
+	for s, v := range p.Samples {
+		if _, ok := m.samples[s]; !ok {
+			m.sampleOrder = append(m.sampleOrder, s)
+		}
+		for _, x := range v {
+			if len(m.samples[s]) < 3 {
+				m.samples[s] = append(m.samples[s], x)
+			}
+		}
+	}
+	for fp, v := range p.Viols {
+		if old, ok := m.viols[fp]; ok {
+			old.Count += v.Count
+			if v.Stream == old.Stream && v.Index < old.Index {
+				old.Index, old.What, old.Detail = v.Index, v.What, v.Detail
+			}
+		} else {
+			_, known := m.isKnown(fp)
+			v.Known = known
+			m.viols[fp] = v
+		}
+	}
+	m.evals += p.Evals
+	m.broken = append(m.broken, p.Broken...)
+	return nil
+}
+
+// ReplayIndex returns the (stream, index) of the replay request, if any.
+func (m *M) ReplayIndex() (string, int64, bool) {
+	if m.replay == nil {
+		return "", 0, false
+	}
+	return m.replay.Stream, m.replay.Index, true
 }
